@@ -176,7 +176,7 @@ func lifeConcScenarios(prop string) []*Scenario {
 func registerLife(prop, title string) {
 	mc.Register(&mc.Check{
 		Prop:        prop,
-		Rule:        "(a) configurations: every producer form set (<=2 of 21 templates) x consumer shape x lifetime pairing of the C04 enumeration, judged by the lifetime oracle; (b) histories: every sequence to depth 3 (quick) / 4 (thorough) over {CreateScope(provider|scope), 14 resolutions by type/key/group, Close} on <=3 scopes of a 16-registration container covering all forms for all lifetimes, each completed by closing the provider; (c) schedules: 2-3 goroutines resolving colliding identities, preemption bound 2 (3 thorough). Oracle: " + title + ". An outcome is the canonical observation string of one execution.",
+		Rule:        "(a) configurations: every producer form set (<=2 of 21 templates) x consumer shape x lifetime pairing of the C04 enumeration, judged by the lifetime oracle; (b) histories: every sequence to depth 3 (quick) / 4 (thorough) over {CreateScope(provider|scope), 14 resolutions by type/key/group, Close} on <=3 scopes of a 16-registration container covering all forms for all lifetimes, each completed by closing the provider; (c) schedules: 2-3 goroutines resolving colliding identities, preemption bound 2 (3 thorough); (d, C01) two providers built from one collection and alive together: every history to depth 4 (5) over {use p1, use p2, close p1, close p2}: one construction per singleton per provider, nothing created for one provider handed out by the other. Oracle: " + title + ". An outcome is the canonical observation string of one execution.",
 		Assume:      []string{"instances are identified by the recorder (registration, invocation serial, output index) embedded in every value the harness constructors create"},
 		MinOutcomes: 10,
 		Jobs: func(tier string) []mc.Job {
@@ -251,6 +251,7 @@ func registerLife(prop, title string) {
 			}
 			if prop == "C01" {
 				jobs = append(jobs, mc.Job{Name: "C01-removed-outputs", Run: c01RemovedOutputs})
+				jobs = append(jobs, twoProvJob(prop, depth4(tier)))
 			}
 			for _, np := range []int{1, 2} {
 				np := np
